@@ -154,6 +154,14 @@ def stageOp (d : StageDrv) (ws : List String) : Option (StageDrv × List Prim ×
   | "cleanstrays" :: now :: names =>
     (parseTime d now).map (fun now => (d, cleanStraysEffects s now (names.map unesc), "ok"))
   | ["cleanwaiting"] => some (d, cleanWaitingEffects s d.names, "ok")
+  | ["cleancache", now] =>
+    (parseTime d now).map (fun now => (d, cleanCacheEffects s now d.names, "ok"))
+  | ["oldlog", n, renamed, hash, size, t] =>
+    -- a record written by an earlier run of the receiver
+    match parseInt? size, parseTime d t with
+    | some size, some t => let n := unesc n
+      some (d.note n (unesc renamed), [Prim.logAppend ⟨n, unesc renamed, unesc hash, size, t, ""⟩], "ok")
+    | _, _ => none
   | _ => none
 
 def applyOp (d : StageDrv) (ws : List String) : StageDrv × String :=
